@@ -113,7 +113,13 @@ def run(ctx):
             methods = {x["method"] for x in H.walk(number_arm["body"]) if x.get("k") == "mcall"}
             key = "%s:number-representations" % name
             if {"as_i64", "as_f64"} <= methods and "as_u64" in methods:
-                ctx.ok("number", key, "as_i64 / as_u64 / as_f64")
+                # the u64 representation must be carried without a wrapping cast: `u as i64` turns 2^63 into i64::MIN
+                wraps = [x for x in H.walk(number_arm["body"]) if x.get("k") == "cast" and x.get("ty") in ("i64", "i32", "u32", "i16", "u16", "i8", "u8", "isize", "usize")
+                         and any(y.get("k") == "path" for y in H.walk(x["e"]))]
+                if wraps:
+                    ctx.violation("number", "%s:number-wrap" % name, "%s casts a JSON number with `as %s`: a JSON integer above i64::MAX (as_u64) wraps to a negative integer (2^63 becomes i64::MIN, u64::MAX becomes -1) instead of keeping its value" % (name, wraps[0]["ty"]), site=wraps[0]["sp"])
+                else:
+                    ctx.ok("number", key, "as_i64 / as_u64 / as_f64")
             elif {"as_i64", "as_f64"} <= methods:
                 ctx.violation("number", key, "%s distinguishes only as_i64 and as_f64: a JSON integer above i64::MAX (representable as u64) silently becomes a float and loses precision" % name, site=number_arm["sp"])
             else:
